@@ -244,11 +244,18 @@ func (m *mappers) ToCharGroup(r comb.Result) (comb.Result, bool) {
 
 	items := r2.Val.(comb.List)
 
+	// Characters beyond the ASCII range cannot be indexed in charMap and are tracked separately.
+	var others []rune
+
 	charMap := make([]bool, len(parser.RuneClasses["ASCII"].Runes()))
 	for _, r := range items {
 		if chars, ok := r.Bag[bagKeyChars].([]rune); ok {
 			for _, c := range chars {
-				charMap[c] = true
+				if int(c) < len(charMap) {
+					charMap[c] = true
+				} else if !containsRune(c, others) {
+					others = append(others, c)
+				}
 			}
 		}
 	}
@@ -258,6 +265,14 @@ func (m *mappers) ToCharGroup(r comb.Result) (comb.Result, bool) {
 		if (!neg && marked) || (neg && !marked) {
 			alt.Exprs = append(alt.Exprs, &Char{
 				Val: rune(i),
+			})
+		}
+	}
+
+	if !neg {
+		for _, c := range others {
+			alt.Exprs = append(alt.Exprs, &Char{
+				Val: c,
 			})
 		}
 	}
